@@ -178,7 +178,7 @@ class BuiltinMixin:
                     res.append(False)
             elif isinstance(c, FunV) and c.kind == 'builtin':
                 k = type_of(v).kind
-                res.append({'int': k in ('int', 'bool'), 'float': k == 'real', 'bool': k == 'bool', 'tuple': k == 'tuple',
+                res.append({'complex': False, 'int': k in ('int', 'bool'), 'float': k == 'real', 'bool': k == 'bool', 'tuple': k == 'tuple',
                             'list': k == 'list', 'set': k == 'set', 'dict': k == 'dict', 'str': k == 'str'}.get(c.qual, None))
                 if res[-1] is None:
                     raise OutOfSubset('isinstance(%s)' % c.qual)
